@@ -22,19 +22,26 @@ def main(argv=None):
     except ModuleNotFoundError:
         print(f"CHECKER-ERROR no check for {a.pid}", file=sys.stderr)
         return 3
+    replay_key = None
     if a.replay:
+        # replay = re-run the check that produced the file (same tier and seed) on the current tree and report whether the same violation re-occurs
         data = json.load(open(a.replay))
-        if hasattr(mod, "replay"):
-            return mod.replay(data)
-        print(json.dumps(data, indent=1))
-        return 0
+        print("replaying", data.get("key"), "-", data.get("what"))
+        print(json.dumps(data.get("replay"), indent=1)[:3000])
+        replay_key, a.tier, seed = data.get("key"), data.get("tier", a.tier), int(data.get("seed", seed))
     rep = Report(a.pid, a.tier, seed, level=getattr(mod, "LEVEL", "other"))
+    rep.replay_key = replay_key
     rep.only = set(a.only.split(",")) if a.only else None
     try:
         mod.run(rep)
     except Exception:
         rep.error("check crashed: " + traceback.format_exc())
-    return rep.finish()
+    code = rep.finish()
+    if replay_key is not None:
+        again = any(v["key"] == replay_key for v in rep.violations)
+        print(f"REPLAY {'reproduced' if again else 'not reproduced'}: {replay_key}")
+        return 1 if again else 0
+    return code
 
 
 if __name__ == "__main__":
